@@ -1,4 +1,5 @@
-"""Re-run the quick checks against every stored seeded change (apply to /repo, run, restore) and update meta.json."""
+"""Re-run the quick checks against every stored seeded change (apply to /repo, run, restore) and update meta.json.
+--scratch: apply each patch to a scratch export of /repo HEAD under /tmp instead (VERIF_REPO), for use while a vp run reads /repo."""
 import json
 import os
 import shutil
@@ -8,22 +9,33 @@ import tempfile
 import time
 
 VERIF = os.path.dirname(os.path.dirname(os.path.abspath(__file__)))
-ids = sys.argv[1:] or sorted(os.listdir(os.path.join(VERIF, "seeded")))
+SCRATCH = "--scratch" in sys.argv
+ids = [a for a in sys.argv[1:] if not a.startswith("--")] or sorted(os.listdir(os.path.join(VERIF, "seeded")))
 for sid in ids:
     d = os.path.join(VERIF, "seeded", sid)
     meta = json.load(open(os.path.join(d, "meta.json")))
-    assert subprocess.run("git status --short", shell=True, cwd="/repo", capture_output=True, text=True).stdout.strip() == ""
-    subprocess.run(f"git apply {os.path.join(d, 'patch.diff')}", shell=True, cwd="/repo", check=True)
     scratch = tempfile.mkdtemp(prefix="verif-seeded-")
+    if SCRATCH:
+        target = os.path.join(scratch, "repo")
+        os.makedirs(target)
+        subprocess.run(f"git -C /repo archive HEAD | tar -x -C {target}", shell=True, check=True)
+        subprocess.run(f"patch -s -p1 < {os.path.join(d, 'patch.diff')}", shell=True, cwd=target, check=True)
+    else:
+        target = "/repo"
+        assert subprocess.run("git status --short", shell=True, cwd="/repo", capture_output=True, text=True).stdout.strip() == ""
+        subprocess.run(f"git apply {os.path.join(d, 'patch.diff')}", shell=True, cwd="/repo", check=True)
     try:
         for p in [q for q in meta["checks"].keys() if "-" not in q]:
             env = dict(os.environ, VERIF_EVIDENCE_DIR=os.path.join(scratch, "evidence"), VERIF_REPLAY_DIR=os.path.join(scratch, "replays"), VERIF_STOP_ON_FIRST="1")
+            if SCRATCH:
+                env["VERIF_REPO"] = target
             t0 = time.time()
             r = subprocess.run(f"bin/simcheck {p} --tier quick", shell=True, cwd=VERIF, env=env, capture_output=True, text=True)
             vio = [ln for ln in r.stdout.splitlines() if ln.startswith("[simcheck] violation")]
             meta["checks"][p] = {"exit": r.returncode, "wall_s": round(time.time() - t0), "first_violation": (vio[0][21:700] if vio else None)}
     finally:
-        subprocess.run("git checkout -- .", shell=True, cwd="/repo")
+        if not SCRATCH:
+            subprocess.run("git checkout -- .", shell=True, cwd="/repo")
         shutil.rmtree(scratch, ignore_errors=True)
     meta["caught_by"] = [p for p, r in meta["checks"].items() if r["exit"] == 1]
     json.dump(meta, open(os.path.join(d, "meta.json"), "w"), indent=1)
